@@ -67,14 +67,48 @@ def run(names):
         finally:
             sh(["git", "-C", "/repo", "checkout", "--", "."])
         vio = [l for l in out.split("\n") if l.startswith("VIOLATION")]
-        res[n] = {"property": prop, "exit": rc, "violation": vio[0] if vio else None}
+        summ = [l for l in out.split("\n") if " theorems=" in l and "->" in l]
+        caught = []
+        if summ:
+            import re
+            m = re.search(r"theorems=(\d+) proved=(\d+) corr=(\d+) cases/(\d+) diffs sweep=(\d+) evals/(\d+) new", summ[-1])
+            if m:
+                th, pr, _, diffs, _, new = map(int, m.groups())
+                if th == 0 or pr < th:
+                    caught.append("proof no longer checks")
+                if diffs:
+                    caught.append("correspondence model-vs-code")
+                if new:
+                    caught.append("sweep (failing input on the real code)")
+        res[n] = {"property": prop, "exit": rc, "violation": vio[0] if vio else None, "summary": summ[-1].strip() if summ else None, "caught_by": caught}
         print(f"{n}: exit={rc} {vio[0] if vio else 'MISSED'}")
         meta["last_run"] = res[n]
         json.dump(meta, open(os.path.join(base, n, "meta.json"), "w"), indent=1)
     return res
 
 
+def table():
+    """markdown table of the stored changes and what caught them (from the last `run`)"""
+    base = os.path.join(VERIF, "seeded")
+    rows = ["| change | breaks | what it needs to manifest | caught by | result |", "|---|---|---|---|---|"]
+    for n in sorted(os.listdir(base)):
+        mp = os.path.join(base, n, "meta.json")
+        if not os.path.exists(mp):
+            continue
+        m = json.load(open(mp))
+        lr = m.get("last_run") or {}
+        needs = " ".join((m.get("needs_to_manifest") or "").split())[:220]
+        rows.append(f"| {n} | {m['breaks']} | {needs} | {', '.join(lr.get('caught_by') or []) or '-'} | {'VIOLATION' if lr.get('violation') else ('not run' if not lr else 'MISSED')} |")
+    open(os.path.join(base, "README.md"), "w").write("# Seeded changes\n\nEach directory holds `patch.diff` (apply with `git -C /repo apply`, undo with `git -C /repo checkout -- .`), "
+        "`demo.py` (exits 0 on the unchanged code, non-zero with the change) and `meta.json`. The table is regenerated by `harness/seeded.py table` from the last "
+        "`harness/seeded.py run`.\n\n" + "\n".join(rows) + "\n")
+    print("\n".join(rows))
+
+
 if __name__ == "__main__":
+    if sys.argv[1] == "table":
+        table()
+        sys.exit(0)
     if sys.argv[1] == "add":
         needs = sys.argv[sys.argv.index("--needs") + 1] if "--needs" in sys.argv else None
         sys.exit(add(sys.argv[2], sys.argv[3], sys.argv[4], needs))
